@@ -26,3 +26,60 @@ pub fn cred_new_password(cleartext: &str) -> Credential {
     let p = kanidm_lib_crypto::CryptoPolicy::danger_test_minimum();
     Credential::new_password_only(&p, cleartext, OffsetDateTime::UNIX_EPOCH).expect("credential")
 }
+
+use crate::credential::CredentialType;
+use crate::prelude::{Uuid, Value};
+use webauthn_rs::prelude::{Passkey, SecurityKey};
+use webauthn_rs_core::proto::{
+    COSEAlgorithm, COSEEC2Key, COSEKey, COSEKeyType, Credential as WebauthnCredential,
+    CredentialV3, ECDSACurve, UserVerificationPolicy,
+};
+
+/// A syntactically valid ES256 WebAuthn credential that no authenticator holds: accounts
+/// carrying it are offered the WebAuthn mechanisms, and every assertion fails to verify.
+fn fixture_webauthn(n: u8) -> WebauthnCredential {
+    WebauthnCredential::from(CredentialV3 {
+        cred_id: vec![0xc2, 0x7c, n, 1, 2, 3, 4, 5, 6, 7, 8, 9, 10, 11, 12, 13],
+        cred: COSEKey {
+            type_: COSEAlgorithm::ES256,
+            key: COSEKeyType::EC_EC2(COSEEC2Key {
+                curve: ECDSACurve::SECP256R1,
+                x: vec![n + 1; 32].into(),
+                y: vec![n + 2; 32].into(),
+            }),
+        },
+        counter: 0,
+        verified: false,
+        registration_policy: UserVerificationPolicy::Preferred,
+    })
+}
+
+/// The credential with a (fixture) security key added as a second factor; a bare password
+/// becomes password+MFA exactly as `Credential::append_securitykey` (test-only upstream) does.
+pub fn cred_add_fixture_security_key(cred: &Credential, n: u8) -> Option<Credential> {
+    let sk = SecurityKey::from(fixture_webauthn(n));
+    let label = format!("sk{n}");
+    let mut c = cred.clone();
+    c.type_ = match &cred.type_ {
+        CredentialType::Password(pw) | CredentialType::GeneratedPassword(pw) => {
+            CredentialType::PasswordMfa(
+                pw.clone(),
+                Default::default(),
+                [(label, sk)].into_iter().collect(),
+                None,
+            )
+        }
+        CredentialType::PasswordMfa(pw, totp, wan, backup) => {
+            let mut wan = wan.clone();
+            wan.insert(label, sk);
+            CredentialType::PasswordMfa(pw.clone(), totp.clone(), wan, backup.clone())
+        }
+        CredentialType::Webauthn(_) => return None,
+    };
+    Some(c)
+}
+
+/// A value for the `passkeys` attribute holding a (fixture) passkey.
+pub fn fixture_passkey_value(id: Uuid, n: u8) -> Value {
+    Value::Passkey(id, format!("pk{n}"), Passkey::from(fixture_webauthn(n)))
+}
